@@ -692,9 +692,14 @@ pub fn check_main(prop: &str, tier: &str) -> i32 {
     println!("VERIF_SEED={vseed} property={prop} tier={tier} engine={engine} runs={n}");
     let workers = std::env::var("VERIF_WORKERS").ok().and_then(|s| s.parse().ok()).unwrap_or(16u64).min(n.max(1));
     let agg = run_batch(prop, tier, vseed, n, workers);
-    if agg.nondeterministic > 0 {
+    // a re-executed run with a different trace: if the batch also holds violations (each is confirmed by a
+    // replay in a fresh process before it is reported) they are the verdict; otherwise the harness cannot decide
+    if agg.nondeterministic > 0 && agg.violations.is_empty() && agg.died.is_empty() {
         eprintln!("HARNESS-ERROR {} of {} re-executed runs had a different trace hash (nondeterminism)", agg.nondeterministic, agg.rechecked);
         return 2;
+    }
+    if agg.nondeterministic > 0 {
+        println!("note: {} of {} re-executed runs had a different trace hash: the code under test keeps state between independent runs of one process", agg.nondeterministic, agg.rechecked);
     }
     let mut extra = json!({});
     if prop == "C09" {
